@@ -18,8 +18,12 @@ type Op struct {
 	Kv int    `json:"kv,omitempty"` // variant of the key class
 	V  int    `json:"v,omitempty"`
 	It int    `json:"it,omitempty"`
-	// foreach: Body[k] = ops executed inside the callback at its k-th invocation
+	// foreach: Body[k] = ops executed inside the callback at its k-th invocation; a body may contain
+	// further foreach ops (re-entrant walks of the same Map/Set, depth <= 3)
 	Body [][]Op `json:"body,omitempty"`
+	// foreach: Abort = n > 0: the callback throws at its n-th invocation (after running Body[n-1]); the
+	// exception is caught by whoever called forEach, the walk is abandoned
+	Abort int `json:"abort,omitempty"`
 }
 
 type Case struct {
@@ -217,8 +221,44 @@ func genHashCase(r *vh.Rng) Case {
 	return c
 }
 
+// genForeach: a forEach whose callback bodies mutate the collection and, down to depth 3, start further
+// forEach walks of the same collection (complete, or abandoned by a throw at a random invocation).
+func genForeach(r *vh.Rng, pool []int, depth int) Op {
+	op := Op{O: "foreach"}
+	if depth > 1 && r.Chance(40) || depth == 1 && r.Chance(8) {
+		op.Abort = 1 + r.Intn(4)
+	}
+	slots := 1 + r.Intn(6)
+	nested := 0
+	for sl := 0; sl < slots; sl++ {
+		var body []Op
+		for b := r.Intn(4); b > 0; b-- {
+			kk := pool[r.Intn(len(pool))]
+			nestW := 0
+			if depth < 3 && nested < 2 {
+				nestW = 4
+			}
+			switch r.Pick(5, 5, 1, 1, nestW) {
+			case 0:
+				body = append(body, Op{O: "set", K: kk, Kv: r.Intn(9), V: r.Intn(1000)})
+			case 1:
+				body = append(body, Op{O: "del", K: kk, Kv: r.Intn(9)})
+			case 2:
+				body = append(body, Op{O: "clear"})
+			case 3:
+				body = append(body, Op{O: "has", K: kk})
+			case 4:
+				body = append(body, genForeach(r, pool, depth+1))
+				nested++
+			}
+		}
+		op.Body = append(op.Body, body)
+	}
+	return op
+}
+
 func genCase(r *vh.Rng) Case {
-	switch r.Pick(1170, 30, 1) {
+	switch r.Pick(1170, 30, 3) {
 	case 1:
 		return genHashCase(r)
 	case 2:
@@ -254,7 +294,7 @@ func genCase(r *vh.Rng) Case {
 		}
 		feW := 0
 		if (c.Surface == "map" || c.Surface == "set") && nIt < 3 {
-			feW = 3
+			feW = 4
 		}
 		switch r.Pick(30, 8, 8, 18, clearW, itW, nextW, 4, feW) {
 		case 0:
@@ -275,26 +315,8 @@ func genCase(r *vh.Rng) Case {
 		case 7:
 			op = Op{O: "size"}
 		case 8:
-			op = Op{O: "foreach"}
+			op = genForeach(r, pool, 1)
 			nIt++
-			slots := 1 + r.Intn(6)
-			for sl := 0; sl < slots; sl++ {
-				var body []Op
-				for b := r.Intn(4); b > 0; b-- {
-					kk := pool[r.Intn(poolSize)]
-					switch r.Pick(5, 5, 1, 1) {
-					case 0:
-						body = append(body, Op{O: "set", K: kk, Kv: r.Intn(9), V: r.Intn(1000)})
-					case 1:
-						body = append(body, Op{O: "del", K: kk, Kv: r.Intn(9)})
-					case 2:
-						body = append(body, Op{O: "clear"})
-					case 3:
-						body = append(body, Op{O: "has", K: kk})
-					}
-				}
-				op.Body = append(op.Body, body)
-			}
 		}
 		c.Ops = append(c.Ops, op)
 	}
@@ -465,6 +487,14 @@ func coqKey(k int) string { return fmt.Sprintf("%d%%N", k+symShift) }
 
 type hostT struct{ X int }
 
+type dynT struct{ n int }
+
+func (d *dynT) Get(string) goja.Value       { return goja.Undefined() }
+func (d *dynT) Set(string, goja.Value) bool { return false }
+func (d *dynT) Has(string) bool             { return false }
+func (d *dynT) Delete(string) bool          { return true }
+func (d *dynT) Keys() []string              { return nil }
+
 // jsvalTerm renders v as a Gallina jsval (constructors of coq/C18/Run.v) from its internal
 // representation (VerifRepr) and its content; objects and symbols get the id the caller assigns.
 func jsvalTerm(v goja.Value, id int, host int) string {
@@ -565,8 +595,23 @@ func runHashCase(c Case) vh.Record {
 		add(e.rt.ToValue(sl), 18, 103, 3)
 		add(e.rt.ToValue(sl), 18, 104, 3)
 		add(e.vals[8][0], 8, 0, -1)
-		for _, x := range vals[:5] {
-			if !strings.Contains(x.rep, "objectGoReflect") && !strings.Contains(x.rep, "objectGoSlice") {
+		// the template objects of one site; of another site
+		tv, err := e.rt.RunString("function C18tg(s){return s}; function C18ft(){return C18tg`x`}; [C18ft(), C18ft(), (function(){return C18tg`x`})()]")
+		if err != nil {
+			panic(err)
+		}
+		ta := tv.ToObject(e.rt)
+		add(ta.Get("0"), 19, 105, 4)
+		add(ta.Get("1"), 19, 106, 4)
+		add(ta.Get("2"), 20, 107, 5)
+		// two DynamicObjects over one Go value; over another
+		d1, d2 := &dynT{}, &dynT{}
+		add(e.rt.NewDynamicObject(d1), 21, 108, 6)
+		add(e.rt.NewDynamicObject(d1), 21, 109, 6)
+		add(e.rt.NewDynamicObject(d2), 22, 110, 7)
+		for i, x := range vals {
+			if i != 5 && !strings.Contains(x.rep, "objectGoReflect") && !strings.Contains(x.rep, "objectGoSlice") &&
+				!strings.Contains(x.rep, "taggedTemplateArray") && !strings.Contains(x.rep, "dynamicObject") {
 				panic("not a Go-value wrapper: " + x.rep)
 			}
 		}
@@ -688,6 +733,7 @@ func runCase(c Case, seed uint64) vh.Record {
 		return ok
 	}
 	feIters := map[int]bool{}
+	feDepth := 0
 	var execOp func(op Op)
 	execOp = func(op Op) {
 		switch op.O {
@@ -706,6 +752,12 @@ func runCase(c Case, seed uint64) vh.Record {
 			call := 0
 			wasLive := liveIter
 			liveIter = true
+			aborted := false
+			feDepth++
+			if feDepth > 1 {
+				tags["nested-forEach"] = true
+				nontrivial = true
+			}
 			cb := func(fc goja.FunctionCall) goja.Value {
 				ops = append(ops, fmt.Sprintf("(ONext %d)", id))
 				var o string
@@ -718,22 +770,44 @@ func runCase(c Case, seed uint64) vh.Record {
 				obs = append(obs, o)
 				if call < len(op.Body) {
 					for _, sub := range op.Body[call] {
-						if sub.O != "foreach" && sub.O != "iter" && sub.O != "next" {
-							execOp(sub)
+						if sub.O == "foreach" && feDepth >= 3 || sub.O == "iter" || sub.O == "next" {
+							continue
 						}
+						execOp(sub)
 					}
 				}
 				call++
 				if call > 300 {
-					panic(e.rt.NewTypeError("forEach does not terminate"))
+					panic("forEach does not terminate")
+				}
+				if op.Abort > 0 && call == op.Abort {
+					aborted = true
+					panic(e.rt.NewTypeError("C18 abandon this walk"))
 				}
 				return goja.Undefined()
 			}
-			js.call(js.obj, "forEach", e.rt.ToValue(cb))
-			ops = append(ops, fmt.Sprintf("(ONext %d)", id))
-			outs = append(outs, "REnd")
+			fe, ok := goja.AssertFunction(js.obj.Get("forEach"))
+			if !ok {
+				panic("forEach is not a function")
+			}
+			_, err := fe(js.obj, e.rt.ToValue(cb))
+			feDepth--
 			liveIter = wasLive
 			tags["forEach"] = true
+			if err != nil {
+				if !aborted {
+					panic(err)
+				}
+				// the walk was abandoned by the exception: its cursor is never advanced again
+				if feDepth > 0 {
+					tags["nested-forEach-aborted"] = true
+				} else {
+					tags["forEach-aborted"] = true
+				}
+				return
+			}
+			ops = append(ops, fmt.Sprintf("(ONext %d)", id))
+			outs = append(outs, "REnd")
 		case "set":
 			k := e.key(c, op)
 			val := op.V
